@@ -107,6 +107,11 @@ class AlgorithmWithAnnealingMixin:
         self._annealing_period = self.algo_parameters["annealing"]["n_iter"] // (
             self.algo_parameters["annealing"]["n_plateau"] - 1
         )
+        if self._annealing_period <= 0:
+            raise LeaspyAlgoInputError(
+                "Your `annealing.n_iter` should be at least `annealing.n_plateau` - 1, "
+                "so that each plateau lasts at least one iteration"
+            )
 
         self._annealing_temperature_decrement = (
             self.algo_parameters["annealing"]["initial_temperature"] - 1.0
